@@ -13,12 +13,17 @@ package exec
 import (
 	"context"
 	"fmt"
+	"net/http"
 	"os"
 	"sort"
+	"strings"
 	"sync"
 	"testing"
 	"time"
 
+	baseerrors "github.com/grailbio/base/errors"
+	"github.com/grailbio/base/retry"
+	"github.com/grailbio/bigmachine"
 	"github.com/grailbio/bigmachine/testsystem"
 	"github.com/grailbio/bigslice"
 	"github.com/grailbio/bigslice/internal/vtr"
@@ -46,9 +51,53 @@ var c12xStage1 = bigslice.Func(func(nshard int) bigslice.Slice {
 	return bigslice.Reduce(s, func(a, b int) int { return a + b })
 })
 
+// c12xStage1F: as c12xStage1, but the map function fails persistently (panics) on the rows of one key: a fatal user
+// error in the map-side tasks that hold that key.
+var c12xStage1F = bigslice.Func(func(nshard int) bigslice.Slice {
+	n := 24 * nshard
+	keys, vals := make([]int, n), make([]int, n)
+	for i := range keys {
+		keys[i], vals[i] = i%11, 1
+	}
+	s := bigslice.Const(nshard, keys, vals)
+	s = bigslice.Map(s, func(k, v int) (int, int) {
+		if k == 7 {
+			panic("c12x: user code fails on key 7")
+		}
+		return k, v
+	})
+	return bigslice.Reduce(s, func(a, b int) int { return a + b })
+})
+
 var c12xStage2 = bigslice.Func(func(src bigslice.Slice) bigslice.Slice {
 	return bigslice.Map(src, func(k, v int) (int, int) { return k, v + 1 })
 })
+
+// c12xDead keeps the address of a killed machine dead: the test system's machines listen on ephemeral ports, and a
+// machine started later (the replacement, or a machine of the next session) can be given the port of the machine that
+// was killed; a read that is still addressed to the dead machine would then reach a live stranger. Real machines do
+// not share addresses.
+type c12xDead struct {
+	mu   sync.Mutex
+	base http.RoundTripper
+	dead map[string]bool
+}
+
+func (d *c12xDead) kill(addr string) {
+	d.mu.Lock()
+	d.dead[strings.TrimPrefix(strings.TrimPrefix(addr, "https://"), "http://")] = true
+	d.mu.Unlock()
+}
+
+func (d *c12xDead) RoundTrip(req *http.Request) (*http.Response, error) {
+	d.mu.Lock()
+	dead := d.dead[req.URL.Host]
+	d.mu.Unlock()
+	if dead {
+		return nil, fmt.Errorf("c12x: connection to %s refused (machine is dead)", req.URL.Host)
+	}
+	return d.base.RoundTrip(req)
+}
 
 type c12xRec struct {
 	mu     sync.Mutex
@@ -169,6 +218,9 @@ func (l *c12xRec) hook(ev string, args ...interface{}) {
 		if args[2] != nil {
 			if err, ok := args[2].(error); ok && err != nil {
 				e = "err"
+				if baseerrors.Is(baseerrors.Remote, err) && baseerrors.Match(fatalErr, err) {
+					e = "fatal"
+				}
 			}
 		}
 		l.put(vtr.Rec{"ev": ev, "t": l.tname(args[0].(*Task)), "m": l.mach(args[1].(*sliceMachine)), "err": e})
@@ -270,7 +322,11 @@ func c12xRun(c *c12xCase) (rec vtr.Rec) {
 	system.KeepalivePeriod = 100 * time.Millisecond
 	system.KeepaliveTimeout = 400 * time.Millisecond
 	system.KeepaliveRpcTimeout = 100 * time.Millisecond
+	cl := system.HTTPClient()
+	deadAddrs := &c12xDead{base: cl.Transport, dead: map[string]bool{}}
+	cl.Transport = deadAddrs
 	l.kill = func(m *sliceMachine) {
+		deadAddrs.kill(m.Addr)
 		done := make(chan struct{})
 		go func() {
 			defer close(done)
@@ -300,14 +356,18 @@ func c12xRun(c *c12xCase) (rec vtr.Rec) {
 		}
 	}()
 	// stage 1
-	ctx1, cancel1 := context.WithTimeout(context.Background(), 40*time.Second)
+	ctx1, cancel1 := context.WithTimeout(context.Background(), 60*time.Second)
 	type runres struct {
 		res *Result
 		err error
 	}
 	rc := make(chan runres, 1)
 	go func() {
-		r, err := sess.Run(ctx1, c12xStage1, c.NShard)
+		f := c12xStage1
+		if c.Kind == "fatal" {
+			f = c12xStage1F
+		}
+		r, err := sess.Run(ctx1, f, c.NShard)
 		rc <- runres{r, err}
 	}()
 	// window: the gate sits between the point where the executor used to mark the task OK and m.Assign(task). If the
@@ -350,6 +410,26 @@ func c12xRun(c *c12xCase) (rec vtr.Rec) {
 		rec["events"] = append([]vtr.Rec{}, l.evs...)
 		l.mu.Unlock()
 		rec["reuse"], rec["rows"], rec["sum"] = "skipped", 0, 0
+		if c.Kind == "fatal" {
+			// the session must remain usable: a healthy program runs and is scanned
+			l.emit(vtr.Rec{"ev": "HReuse"})
+			ctx2, cancel2 := context.WithTimeout(context.Background(), 30*time.Second)
+			r2, err := sess.Run(ctx2, c12xStage1, c.NShard)
+			rec["reuse"] = c12xOutcome(err, ctx2)
+			if err == nil {
+				rows, sum, serr := c12xScan(ctx2, r2)
+				rec["rows"], rec["sum"] = rows, sum
+				if serr != nil {
+					rec["reuse"] = "scan " + c12xOutcome(serr, ctx2)
+				}
+			}
+			cancel2()
+			rec["wantrows"], rec["wantsum"] = 11, 24*c.NShard
+			l.emit(vtr.Rec{"ev": "HEnd"})
+			l.mu.Lock()
+			rec["events"] = append([]vtr.Rec{}, l.evs...)
+			l.mu.Unlock()
+		}
 		return
 	}
 	if c.Discard {
@@ -400,6 +480,14 @@ func TestVerifC12X(t *testing.T) {
 	}
 	var cases []*c12xCase
 	vtr.ReadJSON(path, &cases)
+	// time scales (as the probation and keepalive periods in the other harnesses): a worker that reads from a machine
+	// that has just died retries for minutes with the production policy (5 s .. 60 s back-off, 5 tries), and
+	// bigmachine gives a booting machine minutes; both are scaled so that recovery fits a scenario's deadline
+	oldPolicy := retryPolicy
+	retryPolicy = retry.MaxRetries(retry.Backoff(100*time.Millisecond, time.Second, 2), 5)
+	bigmachine.BootPingTimeout, bigmachine.BootPingRpcTimeout = 6*time.Second, 2*time.Second
+	bigmachine.BootCallTimeout, bigmachine.BootCallRpcTimeout = 6*time.Second, 2*time.Second
+	defer func() { retryPolicy = oldPolicy }()
 	w := vtr.Create("c12x_records.ndjson")
 	defer w.Close()
 	for _, c := range cases {
